@@ -152,6 +152,44 @@ pub fn build_trace<B: StarkField>(case: &Case) -> Built<B> {
     Built { desc, cols, honest_values }
 }
 
+/// Runs the prover; with the `async` feature the prover's methods are `async fn`s and the future is
+/// driven by a minimal executor (the futures never actually pend).
+#[cfg(not(feature = "async"))]
+pub fn run_prover<B, H>(prover: &GenProver<B, H>, trace: GenTrace<B>) -> Result<Proof, winterfell::ProverError>
+where
+    B: StarkField + ExtensibleField<2> + ExtensibleField<3> + 'static,
+    H: ElementHasher<BaseField = B> + Sync,
+{
+    prover.prove(trace)
+}
+
+#[cfg(feature = "async")]
+pub fn run_prover<B, H>(prover: &GenProver<B, H>, trace: GenTrace<B>) -> Result<Proof, winterfell::ProverError>
+where
+    B: StarkField + ExtensibleField<2> + ExtensibleField<3> + 'static,
+    H: ElementHasher<BaseField = B> + Sync,
+{
+    block_on(prover.prove(trace))
+}
+
+#[cfg(feature = "async")]
+pub fn block_on<F: core::future::Future>(f: F) -> F::Output {
+    use core::task::{Context, Poll, RawWaker, RawWakerVTable, Waker};
+    fn noop(_: *const ()) {}
+    fn clone(_: *const ()) -> RawWaker {
+        RawWaker::new(core::ptr::null(), &VTABLE)
+    }
+    static VTABLE: RawWakerVTable = RawWakerVTable::new(clone, noop, noop, noop);
+    let waker = unsafe { Waker::from_raw(RawWaker::new(core::ptr::null(), &VTABLE)) };
+    let mut cx = Context::from_waker(&waker);
+    let mut f = Box::pin(f);
+    loop {
+        if let Poll::Ready(v) = f.as_mut().poll(&mut cx) {
+            return v;
+        }
+    }
+}
+
 pub fn err_class(e: &winterfell::VerifierError) -> String {
     let s = format!("{e:?}");
     s.split(|c| c == '(' || c == ' ' || c == '{').next().unwrap_or("").to_string()
@@ -171,7 +209,7 @@ where
     if case.corrupt.kind == "aux" {
         prover.aux_corrupt = Some((case.corrupt.col, case.corrupt.row));
     }
-    let proof = match catch(|| prover.prove(trace)) {
+    let proof = match catch(|| run_prover(&prover, trace)) {
         Err(p) => return json!({"verdict": "prover_panic", "detail": p}),
         Ok(Err(e)) => return json!({"verdict": "prover_error", "detail": format!("{e:?}")}),
         Ok(Ok(p)) => p,
@@ -213,6 +251,56 @@ where
     v["remainder_len"] = json!(remainder_len);
     v["lde_domain"] = json!(lde_domain);
     v
+}
+
+/// C06: prove and report digests of the proof's components (context, commitments, OOD frame, nonce,
+/// whole proof) plus the verdict of verifying the proof.
+pub fn digests<B, H>(case: &Case) -> Value
+where
+    B: StarkField + ExtensibleField<2> + ExtensibleField<3> + 'static,
+    H: ElementHasher<BaseField = B> + Sync,
+{
+    use winter_utils::Serializable;
+    let built = build_trace::<B>(case);
+    let options = case.opts.build();
+    let trace = GenTrace::new(built.desc.clone(), built.cols, built.honest_values.clone());
+    let prover = GenProver::<B, H>::new(options.clone());
+    let proof = match catch(|| run_prover(&prover, trace)) {
+        Err(p) => return json!({"verdict": "prover_panic", "detail": p}),
+        Ok(Err(e)) => return json!({"verdict": "prover_error", "detail": format!("{e:?}")}),
+        Ok(Ok(p)) => p,
+    };
+    let h = |b: &[u8]| blake3::hash(b).to_hex().to_string();
+    let whole = proof.to_bytes();
+    let ctx = proof.context.to_bytes();
+    let com = proof.commitments.to_bytes();
+    let ood = proof.ood_frame.to_bytes();
+    let nonce = proof.pow_nonce;
+    let pub_inputs = GenPub { desc: built.desc.clone(), values: built.honest_values.clone() };
+    let acceptable = AcceptableOptions::OptionSet(vec![options]);
+    let verdict = match catch(|| {
+        winterfell::verify::<GenAir<B>, H, DefaultRandomCoin<H>, MerkleTree<H>>(proof, pub_inputs, &acceptable)
+    }) {
+        Err(p) => format!("verifier_panic {p}"),
+        Ok(Err(e)) => format!("reject {e:?}"),
+        Ok(Ok(())) => "accept".to_string(),
+    };
+    json!({"verdict": verdict, "context": h(&ctx), "commitments": h(&com), "ood": h(&ood),
+           "nonce": format!("{nonce:016x}"), "proof": h(&whole), "proof_len": whole.len()})
+}
+
+pub fn dispatch_digests(case: &Case) -> Value {
+    match (case.field.as_str(), case.hash.as_str()) {
+        ("f64", "blake3_256") => digests::<f64::BaseElement, Blake3_256<f64::BaseElement>>(case),
+        ("f64", "rp64_256") => digests::<f64::BaseElement, Rp64_256>(case),
+        ("f64", "rpjive64_256") => digests::<f64::BaseElement, RpJive64_256>(case),
+        ("f64", "sha3_256") => digests::<f64::BaseElement, Sha3_256<f64::BaseElement>>(case),
+        ("f62", "rp62_248") => digests::<f62::BaseElement, Rp62_248>(case),
+        ("f62", "blake3_256") => digests::<f62::BaseElement, Blake3_256<f62::BaseElement>>(case),
+        ("f128", "blake3_256") => digests::<f128::BaseElement, Blake3_256<f128::BaseElement>>(case),
+        ("f128", "blake3_192") => digests::<f128::BaseElement, Blake3_192<f128::BaseElement>>(case),
+        _ => json!({"verdict": "unsupported_combo"}),
+    }
 }
 
 /// Dispatch on (field, hash).
